@@ -8,7 +8,11 @@
     * `intr_drf_partial` is about an access table (instantiated with the regenerated one in Tie.lean), not about the Go binary;
   The old (pre e8f901b) generator-frame mechanism survives only in the regression lemmas `…_prefix_witness`.
 -/
-import GojaModel.C15.Lemmas
+import GojaModel.C15.Balance
+import GojaModel.C15.Invariant
+import GojaModel.C15.Sim
+import GojaModel.C15.Observe
+import GojaModel.C15.Deliver
 import GojaModel.C15.Drf
 
 namespace GojaModel.C15.Props
@@ -83,17 +87,20 @@ theorem no_catch_no_finally_after_interrupt (ts : List TF) (cs : Nat) :
   rw [hp] at h; cases h
 
 /-- and, independently, any block (a catch block, a finally block, an iterator's return method, the rest of a
-    loop) entered once the flag is visible leaves the whole state — event log included — untouched. -/
+    loop) entered once the flag is visible leaves every observable part of the state — event log, queue, stacks,
+    count of executed statements — untouched (only the ghosts `polls` and `tr` advance). -/
 theorem no_script_code_once_flag_visible (fuel : Nat) (c : Cfg) (b : List Stmt) (st : St) (h : st.flag = true) :
-    (execBlock fuel c b st).2 = st := by
-  rcases execBlock_flag fuel c b st h with e | e <;> simp [e]
+    SameObs st (execBlock fuel c b st).2 := by
+  rcases execBlock_flag fuel c b st h with e | e
+  · rw [e]; exact sameObs_raise_poll h
+  · rw [e]; constructor <;> rfl
 
 /-- A nested native frame entered while the flag is visible re-raises without executing a statement or logging. -/
-theorem nested_frame_reraises (fuel : Nat) (c : Cfg) (leaky swI swT : Bool) (b : List Stmt) (st : St)
+theorem nested_frame_reraises (fuel : Nat) (c : Cfg) (g swI swT : Bool) (b : List Stmt) (st : St)
     (h : st.flag = true) :
-    (execFrame fuel c leaky swI swT b st).2.log = st.log ∧ (execFrame fuel c leaky swI swT b st).2.flag = true ∧
-    (execFrame fuel c leaky swI swT b st).2.execs = st.execs :=
-  execFrame_flag fuel c leaky swI swT b st h
+    (execFrame fuel c g swI swT b st).2.log = st.log ∧ (execFrame fuel c g swI swT b st).2.flag = true ∧
+    (execFrame fuel c g swI swT b st).2.execs = st.execs :=
+  execFrame_flag fuel c g swI swT b st h
 
 /-- A frame whose marker is popped in a `defer` (vm.try, runTry, __call, nested RunProgram, Callable) leaves try stack
     and call stack exactly as it found them — for EVERY body and every outcome (normal, JS exception, uncatchable
@@ -125,9 +132,9 @@ theorem generator_frame_pops_marker (fuel : Nat) (c : Cfg) (swI swT : Bool) (b :
       simp only [if_true] at hu ⊢
       exact ⟨by trivial, hu.2⟩
 
-/-- Every statement, block, loop, native call and for-of is stack-balanced: normal and JS-exception outcomes restore
-    both stacks; an uncatchable outcome leaves only script-level handler frames above the entry try stack (which the
-    enclosing handleThrow skips) and never fewer contexts than at entry. -/
+/-- Every statement is stack-balanced: normal and JS-exception outcomes restore both stacks; an uncatchable outcome
+    leaves only script-level handler frames above the entry try stack (which the enclosing handleThrow skips) and
+    never fewer contexts than at entry. -/
 theorem statements_stack_balanced (fuel : Nat) (c : Cfg) (s : Stmt) (st : St) :
     (((exec fuel c s st).1 = .normal ∨ (exec fuel c s st).1 = .thrown) →
         (exec fuel c s st).2.ts = st.ts ∧ (exec fuel c s st).2.cs = st.cs) ∧
@@ -135,23 +142,75 @@ theorem statements_stack_balanced (fuel : Nat) (c : Cfg) (s : Stmt) (st : St) :
         ∃ hs, allHandlers hs ∧ (exec fuel c s st).2.ts = hs ++ st.ts ∧ st.cs ≤ (exec fuel c s st).2.cs) :=
   (ih_all fuel).exec c s st
 
-/-- Any outermost API call (RunProgram / Callable with `jobs`, Runtime.Try without) on an idle runtime, for EVERY
-    program, probe index and value: if it returns an InterruptedError then the flag is cleared, the job queue is
-    dropped and both VM stacks are empty again — no assumption about the frames the error passed through. -/
-theorem after_interrupt_clean (jobs : Bool) (fuel : Nat) (c : Cfg) (prog : List Stmt) (st : St) (v : Nat)
-    (hcs : st.cs = 0) (hts : st.ts = []) (h : (apiCallJ jobs fuel c prog st).1 = .intr v) :
-    (apiCallJ jobs fuel c prog st).2.flag = false ∧ (apiCallJ jobs fuel c prog st).2.queue = [] ∧
-    (apiCallJ jobs fuel c prog st).2.cs = 0 ∧ (apiCallJ jobs fuel c prog st).2.ts = [] := by
-  simp only [apiCallJ] at h ⊢
-  have hb := (ih_all fuel).block c prog { st with cs := st.cs + 1, ts := markerTF (st.cs + 1) :: st.ts }
-  generalize execBlock fuel c prog { st with cs := st.cs + 1, ts := markerTF (st.cs + 1) :: st.ts } = r at hb h ⊢
+/-- vm.curAsyncRunner: every statement leaves it as it found it, or nil (the reset in onFulfilled/onRejected is
+    deferred, so it also runs when an uncatchable error leaves the continuation). -/
+theorem statements_keep_asyncRunner (fuel : Nat) (c : Cfg) (s : Stmt) (st : St) :
+    (exec fuel c s st).2.car = st.car ∨ (exec fuel c s st).2.car = false :=
+  (ih4_all fuel).exec c s st
+
+/-- Every statement's emitted trace extends an execution of the interleaving model to an execution of the interleaving
+    model, with the shared cells in agreement and the runner where the outcome says (at a poll / raising v). -/
+theorem statements_simulated (s0 : S) (fuel : Nat) (c : Cfg) (s : Stmt) (st : St) (h : Live s0 st) :
+    Sim s0 (exec fuel c s st) :=
+  (ih3_all s0 fuel).exec c s st h
+
+/-- What "the runtime is idle and nothing of an earlier run is left" means in the model: flag, queued jobs, call
+    stack, try stack, and the async runner the VM points at (vm.go captureStack appends the frames of the awaiting
+    async functions to EVERY later stack trace iff vm.curAsyncRunner != nil — the red-team change m4). -/
+structure Idle (st : St) : Prop where
+  flag : st.flag = false
+  queue : st.queue = []
+  cs : st.cs = 0
+  ts : st.ts = []
+  car : st.car = false
+
+/-- Everything the four inductions (stack balance, interrupt invariant, async-runner discipline, simulation) say about
+    ONE outermost API call, for every program, entry point (`jobs`), fuel, probe index, external delivery point and
+    value.  `At s0 st .idle`: the trace emitted so far is an execution of the interleaving model `Conc` from `s0`
+    that ends, in agreement on the shared cells, with the runner idle. -/
+theorem apiCallJ_master (s0 : S) (jobs : Bool) (fuel : Nat) (c : Cfg) (prog : List Stmt) (st : St)
+    (hcs : st.cs = 0) (hts : st.ts = []) (hI : Inv c st) (hcar : st.car = false) (hAt : At s0 st .idle)
+    (hne : (apiCallJ jobs fuel c prog st).1 ≠ .oof) :
+    (apiCallJ jobs fuel c prog st).2.cs = 0 ∧ (apiCallJ jobs fuel c prog st).2.ts = [] ∧
+    (apiCallJ jobs fuel c prog st).2.car = false ∧ At s0 (apiCallJ jobs fuel c prog st).2 .idle ∧
+    (∀ v, (apiCallJ jobs fuel c prog st).1 = .intr v →
+      v = c.v ∧ (apiCallJ jobs fuel c prog st).2.log = (apiCallJ jobs fuel c prog st).2.frozen ∧
+      (apiCallJ jobs fuel c prog st).2.flag = false ∧ (apiCallJ jobs fuel c prog st).2.queue = []) := by
+  simp only [apiCallJ] at hne ⊢
+  have hL0 : Live s0 (emit [.rCall] { st with cs := st.cs + 1, ts := markerTF (st.cs + 1) :: st.ts }) :=
+    idle_call hAt rfl rfl rfl
+  have hb := (ih_all fuel).block c prog (emit [.rCall] { st with cs := st.cs + 1, ts := markerTF (st.cs + 1) :: st.ts })
+  have hg := (ih2_all fuel).block c prog (emit [.rCall] { st with cs := st.cs + 1, ts := markerTF (st.cs + 1) :: st.ts })
+    (hI.of_eq rfl rfl rfl rfl)
+  have hc := (ih4_all fuel).block c prog (emit [.rCall] { st with cs := st.cs + 1, ts := markerTF (st.cs + 1) :: st.ts })
+  have hs := (ih3_all s0 fuel).block c prog (emit [.rCall] { st with cs := st.cs + 1, ts := markerTF (st.cs + 1) :: st.ts }) hL0
+  generalize execBlock fuel c prog (emit [.rCall] { st with cs := st.cs + 1, ts := markerTF (st.cs + 1) :: st.ts }) = r
+    at hb hg hc hs hne ⊢
   obtain ⟨o, st1⟩ := r
-  cases o with
-  | oof => simp at h
-  | intr v' =>
-    obtain ⟨hs, hh, hts1, hcs1⟩ := hb.2 v' rfl
-    simp only [hts, hcs, Nat.zero_add] at hts1 hcs1
-    have hm := handleThrow_none_handlers hs [] (markerTF 1) st1.cs hh rfl
+  have hcar1 : st1.car = false := by
+    rcases hc with h | h
+    · rw [h]; exact hcar
+    · exact h
+  -- the outermost recover, given that it sees an empty call stack
+  have fin : ∀ (w : Nat) (s2 : St), s2.cs = 0 → s2.ts = [] → s2.car = false → Good c (.intr w, s2) → Dead s0 s2 w →
+      (apiRecover w s2).2.cs = 0 ∧ (apiRecover w s2).2.ts = [] ∧ (apiRecover w s2).2.car = false ∧
+      At s0 (apiRecover w s2).2 .idle ∧
+      (∀ v, (apiRecover w s2).1 = .intr v → v = c.v ∧ (apiRecover w s2).2.log = (apiRecover w s2).2.frozen ∧
+        (apiRecover w s2).2.flag = false ∧ (apiRecover w s2).2.queue = []) := by
+    intro w s2 h1 h2 h3 hgood hdead
+    have f := hgood.2 w rfl
+    have i := hgood.1 f.1
+    simp only [apiRecover, h1, if_true]
+    refine ⟨h1, h2, h3, dead_return hdead rfl rfl rfl, ?_⟩
+    intro v hv
+    simp at hv; subst hv
+    exact ⟨by rw [← f.2]; exact i.2, i.1, rfl, rfl⟩
+  cases o
+  case oof => simp at hne
+  case intr w =>
+    obtain ⟨hs', hh, hts1, hcs1⟩ := hb.2 w rfl
+    simp only [emit, hts, hcs, Nat.zero_add] at hts1 hcs1
+    have hm := handleThrow_none_handlers hs' [] (markerTF 1) st1.cs hh rfl
     have htr : truncCs (markerTF 1) st1.cs = 1 := by
       simp only [truncCs, markerTF]
       by_cases hlt : 1 < st1.cs
@@ -159,95 +218,168 @@ theorem after_interrupt_clean (jobs : Bool) (fuel : Nat) (c : Cfg) (prog : List 
       · simp [hlt]; omega
     have hu : unwindNone st1.ts st1.cs = ([markerTF 1], 1) := by
       simp only [unwindNone, hts1, hm, htr]
-    simp [hu, apiRecover, leaveAbrupt]
-  | normal =>
-    have hbs := hb.1 (Or.inl rfl)
-    simp only [hcs, true_and] at h ⊢
+    simp only [hu, List.tail_cons, Nat.sub_self]
+    exact fin w _ rfl rfl hcar1 (hg.restack _ _ (fun _ h => h) rfl rfl rfl rfl) ((hs.2 w rfl).congr rfl rfl rfl)
+  -- the normal way out (the program completed or threw a script exception): leave() drains the jobs
+  all_goals
+    have hl1 : Live s0 st1 := hs.1 (by first | exact Or.inl rfl | exact Or.inr rfl)
+    simp only [hcs, true_and] at hne ⊢
     cases jobs with
-    | false => simp at h
+    | false =>
+      simp only [Bool.false_eq_true, if_false, if_true]
+      refine ⟨rfl, hts, hcar1, live_exit (hl1.congr (st' := { st1 with ts := st.ts, cs := 0 }) rfl rfl rfl) rfl rfl rfl, ?_⟩
+      intro v hv; simp at hv
     | true =>
-      simp only [if_true] at h ⊢
+      simp only [if_true] at hne ⊢
       have hj := runJobs_balStrong fuel c [] { st1 with ts := st.ts, cs := 0 }
-      generalize runJobs fuel c [] { st1 with ts := st.ts, cs := 0 } = rj at hj h ⊢
+      have hjg := runJobs_good fuel c [] { st1 with ts := st.ts, cs := 0 } (hg.1.of_eq rfl rfl rfl rfl)
+      have hjc := runJobs_carOk fuel c [] { st1 with ts := st.ts, cs := 0 }
+      have hjs := runJobs_sim s0 fuel c [] { st1 with ts := st.ts, cs := 0 } (hl1.congr rfl rfl rfl)
+      generalize runJobs fuel c [] { st1 with ts := st.ts, cs := 0 } = rj at hj hjg hjc hjs hne ⊢
       obtain ⟨oj, stj⟩ := rj
+      have hcarj : stj.car = false := by
+        rcases hjc with h | h
+        · rw [h]; exact hcar1
+        · exact h
       cases oj with
-      | intr vj =>
+      | intr w =>
         have e := hj (by simp)
-        simp only [] at e
-        simp [apiRecover, leaveAbrupt, e.2, e.1, hts]
-      | normal => simp at h
-      | thrown => simp at h
-      | oof => simp at h
-  | thrown =>
-    simp only [hcs, true_and] at h ⊢
-    cases jobs with
-    | false => simp at h
-    | true =>
-      simp only [if_true] at h ⊢
-      have hj := runJobs_balStrong fuel c [] { st1 with ts := st.ts, cs := 0 }
-      generalize runJobs fuel c [] { st1 with ts := st.ts, cs := 0 } = rj at hj h ⊢
-      obtain ⟨oj, stj⟩ := rj
-      cases oj with
-      | intr vj =>
+        exact fin w stj e.2 (by rw [e.1]; exact hts) hcarj hjg (hjs.2 w rfl)
+      | oof => simp at hne
+      | normal =>
         have e := hj (by simp)
-        simp only [] at e
-        simp [apiRecover, leaveAbrupt, e.2, e.1, hts]
-      | normal => simp at h
-      | thrown => simp at h
-      | oof => simp at h
+        refine ⟨e.2, by rw [show (emit [Label.rExit] stj).ts = stj.ts from rfl, e.1]; exact hts, hcarj,
+          live_exit (hjs.1 (Or.inl rfl)) rfl rfl rfl, ?_⟩
+        intro v hv; simp at hv
+      | thrown =>
+        have e := hj (by simp)
+        refine ⟨e.2, by rw [show (emit [Label.rExit] stj).ts = stj.ts from rfl, e.1]; exact hts, hcarj,
+          live_exit (hjs.1 (Or.inr rfl)) rfl rfl rfl, ?_⟩
+        intro v hv; simp at hv
+
+/-- a fresh runtime: nothing emitted yet, the interleaving model in its initial state -/
+theorem fresh_at_idle : At Conc.init ({} : St) .idle :=
+  ⟨Conc.init, rfl, ⟨rfl, rfl, rfl, fun _ => rfl, rfl⟩, rfl⟩
+
+/-- Any outermost call (RunProgram / Callable / Runtime.Try / Exception.Error() at depth 0) on an idle runtime, for EVERY
+    program, probe index, external delivery point and value: if it returns an InterruptedError the runtime is `Idle`
+    again — flag cleared, queue dropped, both VM stacks empty, and the VM points at no async runner (so later stack
+    traces cannot show frames of the aborted run) — with no assumption about the frames the error passed through. -/
+theorem after_interrupt_clean (s0 : S) (jobs : Bool) (fuel : Nat) (c : Cfg) (prog : List Stmt) (st : St) (v : Nat)
+    (hcs : st.cs = 0) (hts : st.ts = []) (hI : Inv c st) (hcar : st.car = false) (hAt : At s0 st .idle)
+    (h : (apiCallJ jobs fuel c prog st).1 = .intr v) : Idle (apiCallJ jobs fuel c prog st).2 := by
+  have m := apiCallJ_master s0 jobs fuel c prog st hcs hts hI hcar hAt (by rw [h]; simp)
+  have k := m.2.2.2.2 v h
+  exact ⟨k.2.2.1, k.2.2.2, m.1, m.2.1, m.2.2.1⟩
+
+/-- Whatever the outcome, the VM stacks are empty and the VM points at no async runner when the call has returned, and
+    the runtime is again in a state the interleaving model calls idle: the next call may start from it. -/
+theorem call_returns_to_reusable_state (s0 : S) (jobs : Bool) (fuel : Nat) (c : Cfg) (prog : List Stmt) (st : St)
+    (hcs : st.cs = 0) (hts : st.ts = []) (hI : Inv c st) (hcar : st.car = false) (hAt : At s0 st .idle)
+    (hne : (apiCallJ jobs fuel c prog st).1 ≠ .oof) :
+    (apiCallJ jobs fuel c prog st).2.cs = 0 ∧ (apiCallJ jobs fuel c prog st).2.ts = [] ∧
+    (apiCallJ jobs fuel c prog st).2.car = false ∧ At s0 (apiCallJ jobs fuel c prog st).2 .idle :=
+  let m := apiCallJ_master s0 jobs fuel c prog st hcs hts hI hcar hAt hne
+  ⟨m.1, m.2.1, m.2.2.1, m.2.2.2.1⟩
+
+/-- For EVERY program, entry point, probe index k, external delivery point and value: if the call returns an
+    InterruptedError, (1) it carries exactly the value passed to Interrupt, and (2) the event log at return is the event
+    log at the instant Interrupt was called (ghost `frozen`): no catch block, finally block, iterator return(),
+    generator body, promise job or any other script statement added an event afterwards. -/
+theorem interrupted_call_value_and_log (s0 : S) (jobs : Bool) (fuel : Nat) (c : Cfg) (prog : List Stmt) (st : St)
+    (v : Nat) (hcs : st.cs = 0) (hts : st.ts = []) (hI : Inv c st) (hcar : st.car = false) (hAt : At s0 st .idle)
+    (h : (apiCallJ jobs fuel c prog st).1 = .intr v) :
+    v = c.v ∧ (apiCallJ jobs fuel c prog st).2.log = (apiCallJ jobs fuel c prog st).2.frozen := by
+  have k := (apiCallJ_master s0 jobs fuel c prog st hcs hts hI hcar hAt (by rw [h]; simp)).2.2.2.2 v h
+  exact ⟨k.1, k.2.1⟩
+
+/-! ### the join: an interpreter run IS an execution of the interleaving model -/
+
+/-- THE REFINEMENT.  The list of actions an outermost call emits (its polls, instructions, lock/read/unlock, control
+    steps, and the four atomic actions of each Interrupt — by the runner itself inside probe(), or by another goroutine
+    just before ANY chosen poll `c.ext`) is an execution of the two-thread interleaving model `Conc`; the execution
+    ends with the runner idle and the shared cells (flag, value, lock, interrupters) as the interpreter says. -/
+theorem interpreter_run_is_interleaved_execution (s0 : S) (jobs : Bool) (fuel : Nat) (c : Cfg) (prog : List Stmt)
+    (st : St) (hcs : st.cs = 0) (hts : st.ts = []) (hI : Inv c st) (hcar : st.car = false) (hAt : At s0 st .idle)
+    (hne : (apiCallJ jobs fuel c prog st).1 ≠ .oof) :
+    ∃ s', run s0 (apiCallJ jobs fuel c prog st).2.tr = some s' ∧ s'.rpc = .idle ∧
+      s'.flag = (apiCallJ jobs fuel c prog st).2.flag ∧ s'.val = (apiCallJ jobs fuel c prog st).2.val ∧
+      s'.lock = none ∧ (∀ t, s'.ipc t = .idle) := by
+  obtain ⟨s', h1, ⟨a, b, c', d, _⟩, h3⟩ := (apiCallJ_master s0 jobs fuel c prog st hcs hts hI hcar hAt hne).2.2.2.1
+  exact ⟨s', h1, h3, a, b, c', d⟩
+
+/-- the script part of a call emits an execution of `Conc`, all of whose actions are quiet -/
+theorem script_trace_valid_and_quiet (s0 : S) (fuel : Nat) (c : Cfg) (prog : List Stmt) (st : St) (hL : Live s0 st)
+    (hQ : TrQuiet st) (hne : (execBlock fuel c prog st).1 ≠ .oof) :
+    (∃ s', run s0 (execBlock fuel c prog st).2.tr = some s') ∧ allQuiet (execBlock fuel c prog st).2.tr = true := by
+  have hs := (ih3_all s0 fuel).block c prog st hL
+  refine ⟨?_, (ih5_all fuel).block c prog st hQ⟩
+  cases ho : (execBlock fuel c prog st).1 with
+  | oof => exact absurd ho hne
+  | normal => obtain ⟨s', h, _⟩ := hs.1 (Or.inl ho); exact ⟨s', h⟩
+  | thrown => obtain ⟨s', h, _⟩ := hs.1 (Or.inr ho); exact ⟨s', h⟩
+  | intr v => obtain ⟨s', h, _⟩ := hs.2 v ho; exact ⟨s', h⟩
+
+/-- Hence the promptness theorem of the interleaving model speaks about interpreter runs: cut the trace emitted by the
+    script part of a call (`execBlock`, i.e. up to the outermost recover) at ANY point where the store to `interrupted`
+    is visible; in the rest at most one more instruction is executed, and none if the runner was not between a poll and
+    its instruction — for every program, every placement of the Interrupt (k-th probe, or any poll `ext`), no side
+    condition on the rest of the trace. -/
+theorem interpreter_trace_prompt (s0 : S) (fuel : Nat) (c : Cfg) (prog : List Stmt) (st : St) (hL : Live s0 st)
+    (hQ : TrQuiet st) (pre post : List Label) (hsplit : (execBlock fuel c prog st).2.tr = pre ++ post)
+    (hne : (execBlock fuel c prog st).1 ≠ .oof) (s : S) (hpre : run s0 pre = some s) (hf : s.flag = true) :
+    ∃ s', run s post = some s' ∧ s'.execs ≤ s.execs + 1 ∧ (s.rpc ≠ .exec → s'.execs = s.execs ∧ s'.rpc ≠ .exec) := by
+  obtain ⟨⟨s', hr⟩, hq⟩ := script_trace_valid_and_quiet s0 fuel c prog st hL hQ hne
+  rw [hsplit, run_append, hpre] at hr
+  have hr' : run s post = some s' := hr
+  rw [hsplit, allQuiet_append] at hq
+  have hq' : allQuiet post = true := by
+    cases h1 : allQuiet pre <;> cases h2 : allQuiet post <;> simp [h1, h2] at hq ⊢
+  have p := prompt_partial hr' hq' hf
+  exact ⟨s', hr', p.2.1, p.2.2⟩
+
+/-- THE PROJECTION (interleaving model → interpreter interface).  In EVERY execution of the two-thread model that starts
+    with the flag clear (any number of interrupting goroutines, their actions interleaved anywhere, no ClearInterrupt,
+    call not yet returned) the runner's polls observe `false` exactly n times and `true` ever after, n = the number of
+    polls taken before the first store to `interrupted`.  The runner depends on the other goroutines only through
+    these observations (and the value read under the lock, `value_is_last_set`), so every interleaving is, to the runner,
+    "Interrupt delivered at poll point n" — the executions the interpreter implements with `Cfg.ext = some n`. -/
+theorem interleaved_executions_project {s s' : S} {ls : List Label} (h : run s ls = some s') (hq : allQuiet ls = true)
+    (hf : s.flag = false) :
+    obs s ls = List.replicate (pollCount (beforeStore ls)) false ++ List.replicate (pollCount (fromStore ls)) true :=
+  obs_delivered_at h hq hf
+
+/-- … and the interpreter's own runs are among them: what the polls of an interpreter run observe is `false` n times,
+    then `true`, with n read off its emitted trace. -/
+theorem interpreter_observations (s0 : S) (fuel : Nat) (c : Cfg) (prog : List Stmt) (st : St) (hL : Live s0 st)
+    (hQ : TrQuiet st) (hne : (execBlock fuel c prog st).1 ≠ .oof) (hf : s0.flag = false) :
+    obs s0 (execBlock fuel c prog st).2.tr =
+      List.replicate (pollCount (beforeStore (execBlock fuel c prog st).2.tr)) false ++
+      List.replicate (pollCount (fromStore (execBlock fuel c prog st).2.tr)) true := by
+  obtain ⟨⟨s', hr⟩, hq⟩ := script_trace_valid_and_quiet s0 fuel c prog st hL hQ hne
+  exact obs_delivered_at hr hq hf
+
+/-- `Cfg.ext = some n` IS "delivered at poll point n" in the sense of the projection theorem: when another goroutine's
+    Interrupt is placed before the interpreter's poll number n (no probe-interrupt), the polls of the emitted execution
+    observe `false` exactly n times, then `true` — for every program. (`Dlv n 0 st`: so far the trace has as many polls as
+    the poll counter says and no store; true of a fresh call, `fresh_call_dlv`.) -/
+theorem ext_is_the_delivery_point (s0 : S) (fuel : Nat) (c : Cfg) (prog : List Stmt) (st : St) (n : Nat)
+    (hk : c.k = 0) (he : c.ext = some n) (hD : Dlv n 0 st) (hL : Live s0 st) (hQ : TrQuiet st)
+    (hne : (execBlock fuel c prog st).1 ≠ .oof) (hf0 : s0.flag = false)
+    (hfl : (execBlock fuel c prog st).2.flag = true) :
+    obs s0 (execBlock fuel c prog st).2.tr =
+      List.replicate n false ++ List.replicate (pollCount (fromStore (execBlock fuel c prog st).2.tr)) true := by
+  have o := interpreter_observations s0 fuel c prog st hL hQ hne hf0
+  have d := (ih6_all n fuel).block c prog st hk he hD
+  rw [(d.2.2 hfl).2] at o
+  exact o
+
+theorem fresh_call_dlv (n : Nat) : Dlv n 0 (emit [Label.rCall] ({} : St)) :=
+  ⟨rfl, fun _ => rfl, fun h => by cases h⟩
 
 theorem apiRecover_keeps (v : Nat) (st : St) :
     (apiRecover v st).1 = .intr v ∧ (apiRecover v st).2.log = st.log ∧ (apiRecover v st).2.frozen = st.frozen := by
-  unfold apiRecover; split <;> simp [leaveAbrupt]
-
-/-- For EVERY program, entry point, probe index k and value: if the call returns an InterruptedError, (1) it carries
-    exactly the value passed to Interrupt, and (2) the event log at return is the event log at the instant Interrupt was
-    called (ghost `frozen`, recorded by the interrupting probe): no catch block, finally block, iterator return(),
-    generator body, promise job or any other script statement added an event afterwards — through every nesting of
-    native frames, swallowed errors and the job drain. (`Inv` holds in particular in every state with the flag clear.) -/
-theorem interrupted_call_value_and_log (jobs : Bool) (fuel : Nat) (c : Cfg) (prog : List Stmt) (st : St) (v : Nat)
-    (hI : Inv c st) (h : (apiCallJ jobs fuel c prog st).1 = .intr v) :
-    v = c.v ∧ (apiCallJ jobs fuel c prog st).2.log = (apiCallJ jobs fuel c prog st).2.frozen := by
-  simp only [apiCallJ] at h ⊢
-  have hb := (ih2_all fuel).block c prog { st with cs := st.cs + 1, ts := markerTF (st.cs + 1) :: st.ts }
-    (hI.of_eq rfl rfl rfl rfl)
-  generalize execBlock fuel c prog { st with cs := st.cs + 1, ts := markerTF (st.cs + 1) :: st.ts } = r at hb h ⊢
-  obtain ⟨o, st1⟩ := r
-  have fin : ∀ (w : Nat) (s1 s2 : St), Good c (.intr w, s1) → s2.log = s1.log → s2.frozen = s1.frozen →
-      (apiRecover w s2).1 = .intr v → v = c.v ∧ (apiRecover w s2).2.log = (apiRecover w s2).2.frozen := by
-    intro w s1 s2 hg hl hz hr
-    have k := apiRecover_keeps w s2
-    rw [k.1] at hr; cases hr
-    have f := hg.2 v rfl
-    have i := hg.1 f.1
-    exact ⟨by rw [← f.2]; exact i.2, by rw [k.2.1, k.2.2, hl, hz]; exact i.1⟩
-  cases o with
-  | oof => simp at h
-  | intr w => exact fin w st1 _ hb rfl rfl h
-  | normal =>
-    simp only at h ⊢
-    split at h
-    · have hj := runJobs_good fuel c [] { st1 with ts := st.ts, cs := st.cs } (hb.1.of_eq rfl rfl rfl rfl)
-      generalize runJobs fuel c [] { st1 with ts := st.ts, cs := st.cs } = rj at hj h ⊢
-      obtain ⟨oj, stj⟩ := rj
-      cases oj with
-      | intr w => rename_i hc; simp only [hc]; exact fin w stj stj hj rfl rfl h
-      | normal => simp at h
-      | thrown => simp at h
-      | oof => simp at h
-    · simp at h
-  | thrown =>
-    simp only at h ⊢
-    split at h
-    · have hj := runJobs_good fuel c [] { st1 with ts := st.ts, cs := st.cs } (hb.1.of_eq rfl rfl rfl rfl)
-      generalize runJobs fuel c [] { st1 with ts := st.ts, cs := st.cs } = rj at hj h ⊢
-      obtain ⟨oj, stj⟩ := rj
-      cases oj with
-      | intr w => rename_i hc; simp only [hc]; exact fin w stj stj hj rfl rfl h
-      | normal => simp at h
-      | thrown => simp at h
-      | oof => simp at h
-    · simp at h
+  unfold apiRecover; split <;> simp [leaveAbrupt, emit]
 
 /-- Interrupt while idle, sequential mechanism: the next call (any program) returns the pending value at its first
     poll, logs nothing, executes nothing, and leaves the runtime clean. -/
@@ -256,26 +388,40 @@ theorem idle_interrupt_immediate (jobs : Bool) (fuel : Nat) (c : Cfg) (prog : Li
     (apiCallJ jobs (fuel + 2) c prog st).1 = .intr st.val ∧ (apiCallJ jobs (fuel + 2) c prog st).2.log = st.log ∧
     (apiCallJ jobs (fuel + 2) c prog st).2.execs = st.execs ∧ (apiCallJ jobs (fuel + 2) c prog st).2.flag = false ∧
     (apiCallJ jobs (fuel + 2) c prog st).2.queue = [] := by
-  have e : execBlock (fuel + 2) c prog { st with cs := st.cs + 1, ts := markerTF (st.cs + 1) :: st.ts } =
-      (.intr st.val, { st with cs := st.cs + 1, ts := markerTF (st.cs + 1) :: st.ts }) := by
+  have hf0 : (emit [Label.rCall] { st with cs := st.cs + 1, ts := markerTF (st.cs + 1) :: st.ts }).flag = true := hf
+  have key : ∀ st0 : St, st0.flag = true →
+      execBlock (fuel + 2) c prog st0 = (.intr st0.val, raise (pollStep c st0)) := by
+    intro st0 h0
     cases prog with
-    | nil => simp [execBlock, hf]
-    | cons s rest => simp [execBlock, exec, hf]
-  simp only [apiCallJ, e]
-  simp [hcs, hts, unwindNone, handleThrow, frameAction, skipFrame, markerTF, tryPanicMarker, truncCs, apiRecover, leaveAbrupt]
+    | nil => simp [execBlock, pollStep_flag h0, h0]
+    | cons s rest =>
+      have e1 : exec (fuel + 1) c s st0 = (.intr st0.val, raise (pollStep c st0)) := by
+        simp [exec, pollStep_flag h0, h0]
+      simp [execBlock, e1]
+  have e' := key _ hf0
+  simp only [apiCallJ, e', pollStep_flag hf0]
+  simp [hcs, hts, raise, emit, unwindNone, handleThrow, frameAction, skipFrame, markerTF, tryPanicMarker, truncCs, apiRecover,
+    leaveAbrupt]
 
 set_option linter.unusedSimpArgs false
 
 /-- evaluate a concrete run of the sequential model by unfolding its definitions -/
 macro "eval_model" : tactic => `(tactic|
   simp [apiCall, apiCallJ, execBlock, exec, execNative, execFrame, enterFrame, doProbe, unwindNone, handleThrow,
-    frameAction, skipFrame, apiRecover, leaveAbrupt, runJobs, markerTF, tryPanicMarker, truncCs, Outcome.isAbort])
+    frameAction, skipFrame, apiRecover, leaveAbrupt, runJobs, markerTF, tryPanicMarker, truncCs, Outcome.isAbort,
+    pollStep, raise, pass, instr, emit, interruptLabels])
 
-/-- TEST on literals: the minimised failing input of the repaired defect (interrupt inside a generator body, a job
-    queued) now ends clean in the model. -/
+/-- TEST on literals: the minimised failing input of the repaired defect e8f901b (interrupt inside a generator body, a
+    job queued) ends clean in the model. -/
 theorem generator_frame_clean_example :
-    (apiCall 8 ⟨1, 7⟩ [Stmt.enqueue [Stmt.log 5], Stmt.native true false false 1 [Stmt.probe, Stmt.log 2]] {}).2.flag = false := by
+    (apiCall 8 ⟨1, 7, none⟩ [Stmt.enqueue [Stmt.log 5], Stmt.native true false false 1 [Stmt.probe, Stmt.log 2]] {}).2.flag = false := by
   eval_model
+
+/-- TEST on literals: an Interrupt by another goroutine delivered at the runner's 3rd poll (not at a probe). -/
+theorem external_delivery_example :
+    (apiCall 8 ⟨0, 7, some 2⟩ [Stmt.log 1, Stmt.log 2, Stmt.log 3] {}).1 = .intr 7 ∧
+    (apiCall 8 ⟨0, 7, some 2⟩ [Stmt.log 1, Stmt.log 2, Stmt.log 3] {}).2.log = [Ev.n 1, Ev.n 2] := by
+  constructor <;> eval_model
 
 /-- REGRESSION lemma about the OLD mechanism (before e8f901b), not about the current code: a generator frame that
     does not pop its marker on the panic path leaves it on the try stack … -/
@@ -294,6 +440,12 @@ theorem after_interrupt_not_idle_prefix_witness :
     let u := unwindNone afterGen.ts afterGen.cs
     (apiRecover 7 { afterGen with ts := u.1.tail, cs := u.2 - 1 }).2.flag = true := by
   simp [unwindFrameOld, unwindNone, handleThrow, frameAction, skipFrame, markerTF, tryPanicMarker, truncCs, apiRecover]
+
+/-- REGRESSION lemma about the red-team change m4 (reset of vm.curAsyncRunner not deferred), not about the current code:
+    when the continuation is left by an uncatchable error the VM keeps pointing at the async runner. -/
+theorem async_runner_leak_prefix_witness (st : St) (v : Nat) (h : st.car = true) :
+    (asyncResumeNoDefer (.intr v, st)).2.car = true ∧ (asyncResumeNoDefer (.normal, st)).2.car = false := by
+  simp [asyncResumeNoDefer, h]
 
 /-! ### data-race freedom of an access table -/
 
